@@ -118,6 +118,7 @@ func runC06(c *core.Ctx, r *core.Reporter) {
 	c06insert(c, r)
 	c06result(c, r)
 	c06argbuf(c, r)
+	c06vecshare(c, r)
 }
 
 // alwaysFresh: sequence functions that Common Lisp defines as always returning a newly allocated sequence.
